@@ -534,6 +534,18 @@ pub struct OpEnv {
     pub chunk: usize,
 }
 
+/// Runs `f` with the thread marked as being inside a library call.
+pub fn lib<R>(f: impl FnOnce() -> R) -> R {
+    struct G(bool);
+    impl Drop for G {
+        fn drop(&mut self) {
+            k::set_lib(self.0);
+        }
+    }
+    let _g = G(k::set_lib(true));
+    f()
+}
+
 fn to_errn(e: std::io::Error) -> Errn {
     Errn {
         kind: e.kind(),
@@ -568,47 +580,47 @@ pub fn exec_op(env: &OpEnv, op_id: u32, hidx: usize, h: &Handle, kidx: usize, ke
         let name = key.name.as_str();
         match (h, op) {
             // ---------------------------------------------------- lookups
-            (Handle::Plain(c), Op::Get) | (Handle::Plain(c), Op::GetNoRead) => match c.get(name)? {
+            (Handle::Plain(c), Op::Get) | (Handle::Plain(c), Op::GetNoRead) => match lib(|| c.get(name))? {
                 Some(f) => read_hit(&env.sim, env.proc, f, *op == Op::Get),
                 None => Ok(Out::Miss),
             },
-            (Handle::Sharded(c), Op::Get) | (Handle::Sharded(c), Op::GetNoRead) => match c.get(key.key())? {
+            (Handle::Sharded(c), Op::Get) | (Handle::Sharded(c), Op::GetNoRead) => match lib(|| c.get(key.key()))? {
                 Some(f) => read_hit(&env.sim, env.proc, f, *op == Op::Get),
                 None => Ok(Out::Miss),
             },
-            (Handle::Stack(c), Op::Get) | (Handle::Stack(c), Op::GetNoRead) => match c.get(key.key())? {
+            (Handle::Stack(c), Op::Get) | (Handle::Stack(c), Op::GetNoRead) => match lib(|| c.get(key.key()))? {
                 Some(f) => read_hit(&env.sim, env.proc, f, *op == Op::Get),
                 None => Ok(Out::Miss),
             },
-            (Handle::ReadOnly(c), Op::Get) | (Handle::ReadOnly(c), Op::GetNoRead) => match c.get(key.key())? {
+            (Handle::ReadOnly(c), Op::Get) | (Handle::ReadOnly(c), Op::GetNoRead) => match lib(|| c.get(key.key()))? {
                 Some(f) => read_hit(&env.sim, env.proc, f, *op == Op::Get),
                 None => Ok(Out::Miss),
             },
-            (Handle::Plain(c), Op::Touch) => c.touch(name).map(Out::Bool),
-            (Handle::Sharded(c), Op::Touch) => c.touch(key.key()).map(Out::Bool),
-            (Handle::Stack(c), Op::Touch) => c.touch(key.key()).map(Out::Bool),
-            (Handle::ReadOnly(c), Op::Touch) => c.touch(key.key()).map(Out::Bool),
+            (Handle::Plain(c), Op::Touch) => lib(|| c.touch(name)).map(Out::Bool),
+            (Handle::Sharded(c), Op::Touch) => lib(|| c.touch(key.key())).map(Out::Bool),
+            (Handle::Stack(c), Op::Touch) => lib(|| c.touch(key.key())).map(Out::Bool),
+            (Handle::ReadOnly(c), Op::Touch) => lib(|| c.touch(key.key())).map(Out::Bool),
             // ---------------------------------------------------- raw writes
             (Handle::Plain(c), Op::Set { tag, plen }) | (Handle::Plain(c), Op::Put { tag, plen }) | (Handle::Plain(c), Op::SetTemp { tag, plen }) | (Handle::Plain(c), Op::PutTemp { tag, plen }) => {
-                let dir = c.temp_dir()?.into_owned();
+                let dir = lib(|| c.temp_dir().map(|d| d.into_owned()))?;
                 let mut tmp = NamedTempFile::new_in(dir)?;
                 write_chunked(tmp.as_file_mut(), &make_value(name, *tag, *plen), env.chunk)?;
                 if matches!(op, Op::Set { .. } | Op::SetTemp { .. }) {
-                    c.set(name, tmp.path())?;
+                    lib(|| c.set(name, tmp.path()))?;
                 } else {
-                    c.put(name, tmp.path())?;
+                    lib(|| c.put(name, tmp.path()))?;
                 }
                 *source_left.lock().unwrap() = exists(tmp.path());
                 Ok(Out::Unit)
             }
             (Handle::Sharded(c), Op::Set { tag, plen }) | (Handle::Sharded(c), Op::Put { tag, plen }) | (Handle::Sharded(c), Op::SetTemp { tag, plen }) | (Handle::Sharded(c), Op::PutTemp { tag, plen }) => {
-                let dir = c.temp_dir(Some(key.key()))?.into_owned();
+                let dir = lib(|| c.temp_dir(Some(key.key())).map(|d| d.into_owned()))?;
                 let mut tmp = NamedTempFile::new_in(dir)?;
                 write_chunked(tmp.as_file_mut(), &make_value(name, *tag, *plen), env.chunk)?;
                 if matches!(op, Op::Set { .. } | Op::SetTemp { .. }) {
-                    c.set(key.key(), tmp.path())?;
+                    lib(|| c.set(key.key(), tmp.path()))?;
                 } else {
-                    c.put(key.key(), tmp.path())?;
+                    lib(|| c.put(key.key(), tmp.path()))?;
                 }
                 *source_left.lock().unwrap() = exists(tmp.path());
                 Ok(Out::Unit)
@@ -616,7 +628,7 @@ pub fn exec_op(env: &OpEnv, op_id: u32, hidx: usize, h: &Handle, kidx: usize, ke
             // ---------------------------------------------------- stacked writes
             (Handle::Stack(c), Op::Set { tag, plen }) | (Handle::Stack(c), Op::Put { tag, plen }) => {
                 let src = app_source(env, op_id, name, *tag, *plen)?;
-                let r = if matches!(op, Op::Set { .. }) { c.set(key.key(), &src) } else { c.put(key.key(), &src) };
+                let r = lib(|| if matches!(op, Op::Set { .. }) { c.set(key.key(), &src) } else { c.put(key.key(), &src) });
                 if r.is_err() {
                     // the application owns its source on failure
                     let _ = kismet_vfs::std::fs::remove_file(&src);
@@ -631,25 +643,25 @@ pub fn exec_op(env: &OpEnv, op_id: u32, hidx: usize, h: &Handle, kidx: usize, ke
                 let tmp_path = tmp.path().to_path_buf();
                 let _guard = SourceProbe { left: &source_left, path: tmp_path, sim: &env.sim };
                 if matches!(op, Op::SetTemp { .. }) {
-                    c.set_temp_file(key.key(), tmp)?;
+                    lib(|| c.set_temp_file(key.key(), tmp))?;
                 } else {
-                    c.put_temp_file(key.key(), tmp)?;
+                    lib(|| c.put_temp_file(key.key(), tmp))?;
                 }
                 Ok(Out::Unit)
             }
             (Handle::Stack(c), Op::Ensure { tag, plen, err }) => {
-                let f = c.ensure(key.key(), |dst| {
+                let f = lib(|| c.ensure(key.key(), |dst| {
                     *populate_called.lock().unwrap() = true;
                     match err {
                         PopErr::None => write_chunked(dst, &make_value(name, *tag, *plen), env.chunk),
                         PopErr::NotFound => Err(std::io::Error::new(ErrorKind::NotFound, "populate: not found")),
                         PopErr::Other => Err(std::io::Error::new(ErrorKind::Other, "populate: failed")),
                     }
-                })?;
+                }))?;
                 read_hit(&env.sim, env.proc, f, true)
             }
             (Handle::Stack(c), Op::GetOrUpdate { action, judge_reads, tag, plen, err }) => {
-                let f = c.get_or_update(
+                let f = lib(|| c.get_or_update(
                     key.key(),
                     |hit| {
                         let (primary, file) = match hit {
@@ -690,11 +702,11 @@ pub fn exec_op(env: &OpEnv, op_id: u32, hidx: usize, h: &Handle, kidx: usize, ke
                             PopErr::Other => Err(std::io::Error::new(ErrorKind::Other, "populate: failed")),
                         }
                     },
-                )?;
+                ))?;
                 read_hit(&env.sim, env.proc, f, true)
             }
-            (Handle::Plain(c), Op::TempDir) => c.temp_dir().map(|p| Out::Path(p.to_string_lossy().to_string())),
-            (Handle::Sharded(c), Op::TempDir) => c.temp_dir(Some(key.key())).map(|p| Out::Path(p.to_string_lossy().to_string())),
+            (Handle::Plain(c), Op::TempDir) => lib(|| c.temp_dir().map(|p| Out::Path(p.to_string_lossy().to_string()))),
+            (Handle::Sharded(c), Op::TempDir) => lib(|| c.temp_dir(Some(key.key())).map(|p| Out::Path(p.to_string_lossy().to_string()))),
             // ---------------------------------------------------- unsupported combos
             (Handle::ReadOnly(_), _) | (Handle::Plain(_), _) | (Handle::Sharded(_), _) | (Handle::Stack(_), Op::TempDir) => Err(std::io::Error::new(ErrorKind::Unsupported, "harness: unsupported op for this handle")),
         }
